@@ -251,6 +251,16 @@ EVENTS = [
     ('toggle (True)', ev_toggle(True)),
     ('toggle (False)', ev_toggle(False)),
     ('encode flag-sensitive table', ev_flag_encode),
+    # equal-but-distinct arguments (a memoised encoder conflates them)
+    ('encode Decimal 1.0', lambda p, keep: p.encode.field_table(
+        {'d': [A.D('1.0'), A.D('0')]}).hex()),
+    ('encode Decimal 1.00', lambda p, keep: p.encode.field_table(
+        {'d': [A.D('1.00'), A.D('0.00')]}).hex()),
+    ('encode int 1', lambda p, keep: p.encode.field_array([1, 0]).hex()),
+    ('encode bool True', lambda p, keep: p.encode.field_array(
+        [True, False]).hex()),
+    ('encode float 1.0', lambda p, keep: p.encode.field_array(
+        [1.0, 0.0, -0.0]).hex()),
     ('mutate default arguments', ev_mutate_default_arguments),
     ('mutate decoded arguments', ev_mutate_decoded_arguments),
     ('mutate decoded properties', ev_mutate_decoded_properties),
